@@ -310,6 +310,9 @@ def snapshot_definition(node: SymbolNode | None, common: SymbolSnapshot) -> Symb
             node.meta_fallback_to_any,
             node.is_named_tuple,
             node.is_newtype,
+            node.runtime_protocol,
+            node.is_final,
+            node.is_disjoint_base,
             # We need this to e.g. trigger metaclass calculation in subclasses.
             snapshot_optional_type(node.metaclass_type),
             snapshot_optional_type(node.tuple_type),
